@@ -1,12 +1,13 @@
 """C11 — extracted span contexts identify the right span."""
 import seqcheck
+from props import c05
 
 
 def knobs(r, i):
-    return {"ops": 20 + r.below(80), "threads": 1 + i % 2, "multi": i % 2 == 0, "unsampled": i % 3 == 0, "late_reporter": i % 7 == 0, "remote_children": True}
+    return {"ops": 20 + r.below(80), "threads": 1 + i % 2, "multi": i % 2 == 0, "unsampled": i % 3 == 0, "late_reporter": i % 7 == 0, "remote_children": i % 2 == 1}
 
 
 def run(v, tier, seed, replay):
-    seqcheck.run(v, tier, seed, replay, "C11", ["C11"], tree_oracles=["no_panic", "contexts", "tree", "ids"], knobs=knobs,
+    seqcheck.run(v, tier, seed, replay, "C11", ["C11"], tree_oracles=["no_panic", "contexts", "tree", "ids"], knobs=knobs, extra_cases=c05.extra,
                  n_quick=(700, 150), n_thorough=(80000, 10000),
                  nontrivial=lambda lines, tr: any(c is not None for c in tr.ctx.values()))
